@@ -7,29 +7,40 @@ import re
 reg = json.load(open("/verif/obligations.json"))
 base = json.load(open("/verif/obligations.baseline.json"))
 import fnmatch
-rows = ["| id | level | Verus obligations (functions proved, real code / lemmas) | Kani complete | Kani bounded (bound) | not decided |",
-        "|----|-------|------|------|------|------|"]
+rows = ["| id | level | Verus: functions proved (units) | Kani complete | Kani bounded (bound) | native bounded (cargo test, exhaustive to the bound) | not decided |",
+        "|----|-------|------|------|------|------|------|"]
 for pid in sorted(reg["properties"]):
     p = reg["properties"][pid]
     vn = 0
+    per_unit = {}
     for spec in p.get("verus", []):
         names = [n for n in base["verus"].get(spec["unit"], []) if any(fnmatch.fnmatchcase(n, pat) for pat in spec["functions"])]
-        vn += len(names)
+        per_unit.setdefault(spec["unit"], set()).update(names)
+    vn = sum(len(v) for v in per_unit.values())
+    vtxt = "%d (%s)" % (vn, ", ".join("%s %d" % (u, len(v)) for u, v in per_unit.items())) if vn else "-"
+    nat = p.get("native", [])
     kc = [k for k in p.get("kani", []) if k.get("kind", "complete") == "complete"]
     kb = [k for k in p.get("kani", []) if k.get("kind") == "bounded"]
     ev = None
     ep = "/verif/evidence/%s.json" % pid
     if os.path.exists(ep):
         ev = json.load(open(ep))
-    rows.append("| %s | %s | %s | %s | %s | %s |" % (
-        pid, p.get("level"), vn if vn else "-",
+    rows.append("| %s | %s | %s | %s | %s | %s | %s |" % (
+        pid, p.get("level"), vtxt,
         ", ".join(k["id"] + (" (thorough)" if k.get("tier") == "thorough" else "") for k in kc) or "-",
         "; ".join("%s%s: %s" % (k["id"], " (thorough)" if k.get("tier") == "thorough" else "", k.get("bound", "")) for k in kb) or "-",
+        "; ".join("%s%s" % (k["id"], " (thorough)" if k.get("tier") == "thorough" else "") for k in nat) or "-",
         p.get("not_decided", "")))
 status = "\n".join(rows)
 status += "\n\nNot applicable (MANIFEST `not_applicable`, reasons there and in Part II section 4): C02, C03, C05, C13, C16, C18, C19.\n"
-status += "\nAssumed contracts that remain (also printed in every evidence file): " + "; ".join(
-    a for p in reg["properties"].values() for a in p.get("assumptions", []) if "ASSUMED" in a) + "\n"
+seen = []
+for p in reg["properties"].values():
+    for a in p.get("assumptions", []):
+        if a not in seen:
+            seen.append(a)
+status += "\nAssumptions that remain (also printed in every evidence file):\n\n" + "\n".join("* " + a for a in seen) + "\n"
+status += "\nVerus units and what verifies in each on the unchanged tree (obligations.baseline.json): " + "; ".join(
+    "`%s` %d" % (u, len(v)) for u, v in base["verus"].items()) + ".\n"
 srows = ["| seeded change | breaks | what it needs to manifest | caught by | how |", "|---|---|---|---|---|"]
 for mp in sorted(glob.glob("/verif/seeded/*/meta.json")):
     m = json.load(open(mp))
